@@ -13,7 +13,9 @@ ID = 'C07'
 LEVEL = 'fault_enumeration'
 RULE = ('Scenarios of 2-5 simulated hosts running the library, 1-6 services of 1-3 types with unique instance names, 1-4 browsers '
         'started before/during/after registration, and register / update(port|text|addresses) / unregister / close_host / '
-        'cancel_browser operations at generated virtual times within 40 s; every datagram gets an independent 0-100 ms delay per '
+        'cancel_browser operations at generated virtual times within 40 s; a third of the scenarios with >= 3 hosts add a withdrawal '
+        'race (two freshly joined hosts start browsing a type 150-950 ms apart, mostly with question_type=QM, and a service of that type, sharing its host name with '
+        'a sibling, is unregistered 20-900 ms later); every datagram gets an independent 0-100 ms delay per '
         'receiver (reordering arises naturally), optional 20 % duplication, seeded or end-point jitter. Each scenario is first run '
         'without loss to obtain its trace of N datagrams and then re-run with datagram k dropped (for all receivers or one) - three '
         'drawn k in the quick tier, every k for scenarios with N <= 120 in the thorough tier (complete single-fault enumeration for '
@@ -46,7 +48,8 @@ def scenario(draw) -> Dict[str, Any]:
                          'addrs': draw(st.sampled_from([['v4'], ['v6'], ['v4', 'v6']])), 'port': 8000 + i,
                          'props': draw(st.sampled_from(['', '0161', '0361623d']))})
     browsers = [{'host': draw(st.integers(0, n_hosts - 1)), 'types': draw(st.lists(st.integers(0, 2), min_size=1, max_size=3, unique=True).map(sorted)),
-                 'at': draw(st.one_of(st.sampled_from([0, 0, 500, 1000, 5000]), st.integers(0, 30000)))}
+                 'at': draw(st.one_of(st.sampled_from([0, 0, 500, 1000, 5000]), st.integers(0, 30000))),
+                 'qtype': draw(st.sampled_from([None, None, None, 'QM', 'QU']))}
                 for _ in range(draw(st.integers(1, 4)))]
     ops = []
     for i in range(n_svc):
@@ -63,7 +66,40 @@ def scenario(draw) -> Dict[str, Any]:
             op['browser'] = draw(st.integers(0, len(browsers) - 1))
         ops.append(op)
     joins = [draw(st.sampled_from(['start', 'late', 'late'])) for _ in range(n_hosts)]
-    return {'seed': draw(st.integers(0, 10**6)), 'hosts': n_hosts, 'joins': joins, 'max_delay': draw(st.sampled_from([0, 20, 100, 100])),
+    # services of one machine normally share its host name (and then its address set); the other half of the scenarios keeps
+    # one host name per service so that address sets can differ and change per service
+    shared = draw(st.booleans())
+    host_addrs = [draw(st.sampled_from([['v4'], ['v6'], ['v4', 'v6']])) for _ in range(n_hosts)]
+    if n_hosts >= 3 and draw(st.integers(0, 2)) == 0:
+        # withdrawal race: a service that shares its host name with a sibling is unregistered while an answer for it is still
+        # queued - two freshly joined hosts start browsing its type a few hundred ms apart (the reply to the first makes the reply
+        # to the second wait in the one-second protection queue) and the unregister falls in between
+        shared = True
+        x, y = n_hosts - 1, n_hosts - 2
+        for sv in services:
+            if sv['host'] >= y:
+                sv['host'] = sv['host'] % y
+        for b in browsers:
+            if b['host'] >= y:
+                b['host'] = b['host'] % y
+        ops = [o for o in ops if not (o['op'] == 'close_host' and o['host'] >= y)]
+        k = draw(st.integers(0, n_svc - 1))
+        if not any(i != k and sv['host'] == services[k]['host'] for i, sv in enumerate(services)) and n_svc >= 6:
+            services[(k + 1) % n_svc]['host'] = services[k]['host']
+        if not any(i != k and sv['host'] == services[k]['host'] for i, sv in enumerate(services)):
+            services.append({'host': services[k]['host'], 'type': draw(st.integers(0, 2)), 'label': 'sibling' + str(n_svc),
+                             'addrs': list(services[k]['addrs']), 'port': 8000 + n_svc, 'props': ''})
+            ops.append({'t': 0, 'op': 'register', 'svc': n_svc})
+        t_reg = next(o['t'] for o in ops if o['op'] == 'register' and o['svc'] == k)
+        t1 = t_reg + draw(st.integers(4000, 12000))
+        d1 = draw(st.integers(150, 950))
+        browsers = browsers[:2] + [{'host': x, 'types': [services[k]['type']], 'at': t1, 'qtype': draw(st.sampled_from(['QM', 'QM', None]))},
+                                   {'host': y, 'types': [services[k]['type']], 'at': t1 + d1, 'qtype': draw(st.sampled_from(['QM', 'QM', None]))}]
+        ops = [o for o in ops if not (o.get('svc') == k and o['op'] != 'register')]
+        ops = [o for o in ops if not (o['op'] == 'cancel_browser' and o['browser'] >= len(browsers) - 2)]
+        ops.append({'t': t1 + d1 + draw(st.integers(20, 900)), 'op': 'unregister', 'svc': k, 'what': 'port'})
+        joins[x] = joins[y] = 'late'
+    return {'shared': shared, 'host_addrs': host_addrs,'seed': draw(st.integers(0, 10**6)), 'hosts': n_hosts, 'joins': joins, 'max_delay': draw(st.sampled_from([0, 20, 100, 100])),
             'dup_pct': draw(st.sampled_from([0, 0, 20])), 'jitter': draw(st.sampled_from(['seed', 'seed', 'seed', 'ends'])),
             'services': services, 'browsers': browsers, 'ops': ops,
             'drops': [[draw(st.integers(0, 999)), draw(st.sampled_from(['all', 'one'])), draw(st.sampled_from(['any', 'critical', 'critical']))]
@@ -85,6 +121,10 @@ def host_ip(h: int, fam: str) -> str:
 
 def desc_of(s: Dict[str, Any], version: Dict[str, Any]) -> Dict[str, Any]:
     t = TYPES[s['type']]
+    if version.get('shared'):
+        addrs = [host_ip(s['host'], f) for f in version['shared']]
+        return {'type': t, 'name': f"{s['label']}.{t}", 'port': version['port'], 'server': f"machine{s['host']}.local.",
+                'addrs': addrs, 'props': version['props']}
     addrs = [host_ip(s['host'], f) for f in version['addrs']]
     # one host name per service: a lookup returns every address record of the host name, so services that share a host
     # name but advertise different address sets would make "the advertised addresses" ambiguous
@@ -135,7 +175,8 @@ class Run:
 
         joiners = [asyncio.ensure_future(joiner(hi)) for hi in range(case['hosts'])]
         infos: Dict[int, Any] = {}
-        versions: Dict[int, Dict[str, Any]] = {i: {'addrs': list(s['addrs']), 'port': s['port'], 'props': s['props']}
+        versions: Dict[int, Dict[str, Any]] = {i: {'addrs': list(s['addrs']), 'port': s['port'], 'props': s['props'],
+                                                   'shared': case['host_addrs'][s['host']] if case.get('shared') else None}
                                                for i, s in enumerate(case['services'])}
         registering: Set[int] = set()
         browsers: Dict[int, Any] = {}
@@ -189,7 +230,7 @@ class Run:
                     v = versions[k]
                     if op['what'] == 'port':
                         v['port'] += 100
-                    elif op['what'] == 'text':
+                    elif op['what'] == 'text' or v.get('shared'):
                         v['props'] = '0162' if v['props'] != '0162' else '0163'
                     else:
                         # replace an address by another of the same family (the cache-flush bit only replaces records of
@@ -209,6 +250,12 @@ class Run:
                         continue
                     info = infos.pop(k)
                     self.state_log[k].append((w.clock.t, None))
+                    ptr = info.dns_pointer()      # classification only: was an answer for this instance waiting to be multicast?
+                    if any(ptr in g.answers for q in (h.zc.out_queue, h.zc.out_delay_queue) for g in q.queue):
+                        self.unregister_with_answer_queued = True
+                        if any(kk != k and infos[kk].server_key == info.server_key for kk in infos
+                               if case['services'][kk]['host'] == hi):
+                            self.unregister_with_answer_queued_shared = True
                     task = await h.azc.async_unregister_service(info)
                     await task
                 elif kind == 'close_host':
@@ -237,7 +284,11 @@ class Run:
             types = [TYPES[i] for i in b['types']]
             if registering:
                 self.in_flight_browser_start = True
-            browsers[bi] = AsyncServiceBrowser(hosts[b['host']].zc, types if len(types) > 1 else types[0], listener=lst)
+            from zeroconf import DNSQuestionType
+
+            qt = {'QM': DNSQuestionType.QM, 'QU': DNSQuestionType.QU}.get(b.get('qtype'))     # None: QU first, then QM
+            browsers[bi] = AsyncServiceBrowser(hosts[b['host']].zc, types if len(types) > 1 else types[0], listener=lst,
+                                               question_type=qt)
             self.browser_started[bi] = w.clock.t
             self.t_last = max(self.t_last, w.clock.t)
 
@@ -431,6 +482,12 @@ def check(case: Dict[str, Any]) -> Dict[str, Any]:
         classes.append('dropped-multicast')
     if base.in_flight_browser_start:
         classes.append('browser-started-during-registration')
+    if case.get('shared'):
+        classes.append('shared-host-names')
+    if getattr(base, 'unregister_with_answer_queued', False):
+        classes.append('unregister-with-answer-queued')
+    if getattr(base, 'unregister_with_answer_queued_shared', False):
+        classes.append('unregister-with-answer-queued-sibling-on-same-host-name')
     if base.host_closed_at:
         classes.append('host-closed')
     if any(op['op'] in ('update',) for op in case['ops']):
